@@ -142,7 +142,8 @@ int main(int argc, char **argv) {
   if (a.thorough()) { names.push_back("rsa_3072"); names.push_back("rsa_4096"); names.push_back("oct48"); names.push_back("rsa_2048b"); }
   static std::vector<KeySpec> fresh;
   if (a.thorough()) { fresh.reserve(8); for (const char *w : {"P-256", "P-384", "P-521", "secp256k1", "ed25519", "ed448", "rsa2048"}) fresh.push_back(gen_key(w)); }
-  std::vector<const KeySpec *> ks; for (auto &n : names) ks.push_back(&POOL.get(n)); for (auto &f : fresh) ks.push_back(&f);
+  static KeySpec rsa2050 = load_fixture("rsa_2050");   // modulus length not a multiple of 8 bits
+  std::vector<const KeySpec *> ks; for (auto &n : names) ks.push_back(&POOL.get(n)); ks.push_back(&rsa2050); for (auto &f : fresh) ks.push_back(&f);
   for (auto *k : ks) for (auto &al : ALGS) if (strength_ok(*k, al.alg)) { CELLS.push_back({k, al.alg, ""}); CELLS.push_back({k, al.alg, al.name}); }
   cur_case() = [] { return case_json(CUR); };
   Stats &st = stats();
